@@ -105,7 +105,7 @@ theorem builtin_range (r : Rec) (n : Int) :
     builtinF r P .range [.int n] = .ok (.tuple ((List.range n.toNat).map fun i => .int (Int.ofNat i))) := rfl
 theorem index_cards_zero (r : Rec) (c0 : Card) (rest : List Card) :
     indexF r P (.tuple ((c0 :: rest).map encCard)) (.int 0) = .ok (encCard c0) := by
-  simp only [index_tuple, asInt_int, List.length_map, List.length_cons, normIndex_zero_succ, List.map_cons,
+  simp only [index_tuple, pp_asInt_int, List.length_map, List.length_cons, normIndex_zero_succ, List.map_cons,
     List.getD_cons_zero]
 
 theorem set_next_leader_call (f : Nat) (k : Id) (ex : List (Id × Val)) (c : Contract) (s : PState)
